@@ -87,7 +87,9 @@ Definition run_check (x : sx) : sx :=
   let set := fold_left sset_add names sset_empty in
   let m := check set lines in
   let s := spec_check (elems set) lines in
-  verdict (Bool.eqb m impl) (Bool.eqb s impl) (sbool m).
+  let via := get_int (field "viamw" l) in          (* the same verdict through the public API; -1: not applicable *)
+  let via_ok := fun (v : bool) => (via <? 0)%Z || Bool.eqb v (negb (via =? 0)%Z) in
+  verdict (Bool.eqb m impl && via_ok m) (Bool.eqb s impl && via_ok s) (sbool m).
 
 (* ---------- oracles recorded by the harness ---------- *)
 Fixpoint lookup_b (k : bytes) (tbl : list sx) : option sx :=
